@@ -12,5 +12,6 @@ MNext ==
      \/ \E i \in DOMAIN bufs : Scribble(i)
      \/ \E r \in DOMAIN results : ScribbleResult(r)
      \/ (Cardinality(DOMAIN results) < MaxLive /\ FrameDecode)
+     \/ \E r \in DOMAIN results : Forget(r)
 MSpec == MInit /\ [][MNext]_mvars
 =============================================================================
